@@ -8,7 +8,7 @@ From Coq Require Import List ZArith Bool Lia.
 From Sakura.Model Require Import Base Cursor Length Event Song Token LoopMachine LexCore Tie RunCore.
 From Sakura.Spec Require Import MacroSpec LoopSpec.
 From Sakura.Gen Require Import VarRows DocMacros.
-From Sakura.Proofs Require Import LoopP.
+From Sakura.Proofs Require Import LoopP ExtP.
 Import ListNotations.
 Open Scope Z_scope.
 
@@ -579,6 +579,26 @@ Qed.
 Definition refines (ec1 ec2 : list tok -> res song -> res song) : Prop :=
   forall X s r, ec1 X (Ok s) = r -> r <> OutOfFuel -> ec2 X (Ok s) = r.
 
+Lemma play_parts_refines ec1 ec2 ln sp : refines ec1 ec2 ->
+  forall args i s last r, play_parts ec1 ln sp args i s last = r -> r <> OutOfFuel -> play_parts ec2 ln sp args i s last = r.
+Proof.
+  intros Href. induction args as [|a rest IH]; intros i s last r; [intros <- _; reflexivity|].
+  cbn [play_parts]. intros <- Hr.
+  match goal with |- bind ?A _ = _ => destruct A as [[toks ls']| | |] end; cbn [bind] in *; try reflexivity.
+  match goal with |- context [ec2 ?X (Ok ?x)] => destruct (ec1 X (Ok x)) as [s3| | |] eqn:E end;
+    try (rewrite (Href _ _ _ E) by discriminate; cbn [bind]; try reflexivity).
+  - cbn [bind] in Hr. apply (IH _ _ _ _ eq_refl Hr).
+  - exfalso. apply Hr. reflexivity.
+Qed.
+Lemma exec_play_refines ec1 ec2 s args ln r : refines ec1 ec2 ->
+  exec_play ec1 s args ln = r -> r <> OutOfFuel -> exec_play ec2 s args ln = r.
+Proof.
+  intros Href. unfold exec_play. destruct (_ || _); [intros <- _; reflexivity|]. intros <- Hr.
+  destruct (play_parts ec1 ln (tr_timepos (cur_track s)) args 1 s (tr_timepos (cur_track s))) as [[s4 last]| | |] eqn:E;
+    try (rewrite (play_parts_refines ec1 ec2 ln _ Href _ _ _ _ _ E) by discriminate; reflexivity).
+  exfalso. apply Hr. reflexivity.
+Qed.
+
 Lemma step_song_refines ec1 ec2 : refines ec1 ec2 ->
   forall t s r, step_song ec1 t s = r -> r <> OutOfFuel -> step_song ec2 t s = r.
 Proof.
@@ -595,6 +615,7 @@ Proof.
     match goal with |- bind ?A _ = _ => destruct A as [[body s1]| | |] end; cbn [bind] in *; try reflexivity.
     match goal with |- bind ?A _ = _ => destruct A as [[toks ls']| | |] end; cbn [bind] in *; try reflexivity.
     apply (Href _ _ _ eq_refl Hr).
+  - (* TPlay *) cbn [step_song]. intros E Hr. apply (exec_play_refines ec1 ec2 _ _ _ _ Href E Hr).
 Qed.
 
 Lemma step_tok_refines ec1 ec2 : refines ec1 ec2 ->
@@ -1042,7 +1063,8 @@ End WCost.
 Definition quiet_tok (t : tok) : bool :=
   match t with
   | TLoopBegin _ | TLoopBreak | TLoopEnd | TDiv _ _ _ | TSub _ | TValue _ _ _
-  | TTime _ | TPlayFrom _ | TTimeSignature _ => false
+  | TTime _ | TPlayFrom _ | TTimeSignature _ | TRpnDirect _ _ (* may write a runtime error entry *)
+  | TPlay _ _ (* lexes its parts *) | TDefStr _ _ (* assigns a variable *) => false
   | _ => true
   end.
 
@@ -1054,8 +1076,7 @@ Proof.
   intros Hq. destruct t; try discriminate; cbn [step_song];
   first
   [ solve [intros E; injection E as <-; reflexivity]
-  | solve [unfold exec_note, exec_note_n, emit_note;
-           repeat match goal with |- context [if ?b then _ else _] => destruct b end;
+  | solve [unfold exec_note, exec_note_n; destr_lets; unfold emit_note; destr_lets;
            try discriminate; intros E; injection E as <-; reflexivity]
   | solve [unfold exec_harmony_end, change_cur_track, settle_octave_once, tempo_change, track_sync;
            repeat match goal with |- context [if ?b then _ else _] => destruct b end;
